@@ -83,11 +83,9 @@ def r3_wake_before_callback(ctx):
     P = ctx.P
     f = ctx.anchor('des::net::module::refs::ModuleRef::activate')
     if f:
-        bump = f.calls_to('des::time::driver::Driver::bump')
-        sets = f.calls_to('des::time::driver::Driver::set')
-        wakes = [s for s in f.calls() if any(a.get('fn') and strip_generics(a['fn']) == 'des::time::driver::TimerSlot::wake_all' for a in s.args)]
-        ok = bool(bump and sets and wakes) and f.dominates(bump[0].b, wakes[0].b) and f.dominates(wakes[0].b, sets[0].b)
-        ctx.check(ok, 'wake-before-install', 'due timers are woken before the module callback can run', f.where())
+        from . import C05
+        r = C05.activation_wake_order(ctx, f)
+        ctx.check(bool(r), 'wake-before-install', 'due timers are woken before the module callback can run', f.where())
     for k, callee in ((EV + 'HandleMessageEvent::handle', EV + 'handle_message'), (EV + 'AsyncWakeupEvent::handle', EV + 'async_wakeup'), (EV + 'ModuleRestartEvent::handle', EV + 'module_restart')):
         g = P.fns.get(k)
         if g is None:
